@@ -1057,15 +1057,30 @@ def run(repo, chk):
             chk.fn(si)
             stores = [(r, a, n) for r, a, e, via, n in writes(si) if "options" in unparse(r)]
             seq = [n for n in walk(si) if isinstance(n, ast.stmt)]
+            # program order of the statements (depth-first, as written): line numbers do not order statements that E0 inlined from a helper (they carry the
+            # line of the call)
+            order = {}
+
+            def _number(stmts):
+                for st_ in stmts:
+                    order[id(st_)] = len(order)
+                    for fld_ in ("body", "orelse", "finalbody"):
+                        blk_ = getattr(st_, fld_, None)
+                        if isinstance(blk_, list) and blk_ and isinstance(blk_[0], ast.stmt) and not isinstance(st_, (ast.FunctionDef, ast.ClassDef)):
+                            _number(blk_)
+                    for h_ in getattr(st_, "handlers", []) or []:
+                        _number(h_.body)
+            _number(si.body)
+            before = lambda a_, b_: order.get(id(a_), -1) < order.get(id(b_), -1)
             for recv, attr, node in stores:
                 tgt = "%s.%s" % (unparse(recv), attr)
                 if isinstance(node, ast.Assign) and isinstance(node.value, ast.Name):
                     # restoring store: the name must have been saved from the same attribute earlier
                     saved = [s for s in seq if isinstance(s, ast.Assign) and isinstance(s.targets[0], ast.Name) and s.targets[0].id == node.value.id
-                             and unparse(s.value) == tgt and s.lineno < node.lineno]
+                             and unparse(s.value) == tgt and before(s, node)]
                     chk.expect(bool(saved), "R-C11-2", "_Skeletonize.__init__ restores %s from the value saved before" % tgt, loc(si, node), found=norm(node))
                 else:
-                    later = [s for r2, a2, e2, v2, s in writes(si) if "%s.%s" % (unparse(r2), a2) == tgt and s.lineno > node.lineno
+                    later = [s for r2, a2, e2, v2, s in writes(si) if "%s.%s" % (unparse(r2), a2) == tgt and before(node, s)
                              and isinstance(s, ast.Assign) and isinstance(s.value, ast.Name)]
                     top = [s for s in si.body]
                     on_all_paths = any(s in top for s in later) and node in top
